@@ -188,11 +188,7 @@ func vhC01Template() []byte {
 
 func vhC01ReadTpl() {
 	stream := vhC01Template()
-	r := &vhReader{data: stream, seg: false}
-	if verifParam("SEG", 0) == 1 {
-		// up to two symbolic cut positions
-		r.seg = true
-	}
+	r := &vhReader{data: stream, seg: verifParam("SEG", 0) == 1, bytewise: verifParam("BYTEWISE", 0) == 1}
 	o := vhRunRead(r, nil, -1)
 	vhCheckReadAgainstSpec("C01/ReadTpl", stream, o, -1, nil)
 }
@@ -200,7 +196,7 @@ func vhC01ReadTpl() {
 func vhC01ConnTpl() {
 	stream := vhC01Template()
 	initialID := verifNondetString("initid", 1)
-	r := &vhReader{data: stream}
+	r := &vhReader{data: stream, bytewise: verifParam("BYTEWISE", 0) == 1}
 	o, c := vhRunConn(r, initialID)
 	vhCheckConnAgainstSpec("C01/ConnTpl", stream, initialID, o, c, nil)
 }
@@ -241,4 +237,40 @@ func vhC01SmallBufConn() {
 		o.retryAt = append(o.retryAt, len(o.events))
 	})
 	vhCheckConnAgainstSpec("C01/SmallBufConn", stream, "", o, c, nil)
+}
+
+// Two consecutive events with every combination of line terminators, delivered
+// byte-at-a-time and with one cut at every position (in particular inside a CRLF).
+func vhTwoEventStream() []byte {
+	nl := []string{"\n", "\r", "\r\n"}
+	var s []byte
+	for e := 0; e < 2; e++ {
+		s = append(s, "data:"...)
+		s = append(s, verifNondetBytes("hole", 1)...)
+		s = append(s, nl[verifChoose("nl", 3)]...)
+		s = append(s, nl[verifChoose("nl", 3)]...)
+	}
+	return s
+}
+
+func vhTwoEventReader(stream []byte) *vhReader {
+	r := &vhReader{data: stream}
+	if k := verifChoose("cut", len(stream)+1); k == 0 {
+		r.bytewise = true
+	} else {
+		r.cutAt = k
+	}
+	return r
+}
+
+func vhC01TwoEventsRead() {
+	stream := vhTwoEventStream()
+	o := vhRunRead(vhTwoEventReader(stream), nil, -1)
+	vhCheckReadAgainstSpec("C01/TwoEventsRead", stream, o, -1, nil)
+}
+
+func vhC01TwoEventsConn() {
+	stream := vhTwoEventStream()
+	o, c := vhRunConn(vhTwoEventReader(stream), "")
+	vhCheckConnAgainstSpec("C01/TwoEventsConn", stream, "", o, c, nil)
 }
